@@ -356,6 +356,9 @@ type CM struct {
 	EvCh   chan *api.ReplicateAPIEvent
 	// FailStart makes StartReadCollection of these collection ids fail
 	FailStart map[int64]bool
+	// Gate, when set, is called by StartReadCollection after the start has been recorded and before it returns
+	// (the real call takes long: it looks the collection up downstream with retries); the harness uses it to hold a start
+	Gate func(id int64)
 }
 
 func NewCM(w *World) *CM {
@@ -389,6 +392,9 @@ func (c *CM) StartReadCollection(ctx context.Context, db *coremodel.DatabaseInfo
 	task, _ := ctx.Value(taskKey{}).(string)
 	_ = task
 	c.W.Record("start", fmt.Sprintf("%d", info.ID), fmt.Sprint(ss)+fmt.Sprint(ts), true)
+	if g := c.Gate; g != nil {
+		g(info.ID)
+	}
 	if c.FailStart[info.ID] {
 		return errors.New("injected start failure")
 	}
@@ -433,6 +439,52 @@ type Coll struct {
 type MetaOp struct {
 	*api.DefaultMetaOp
 	Colls []Coll
+	// W, when set, gets a record "unsub" for every UnsubscribeEvent
+	W    *World
+	smu  sync.Mutex
+	subs map[string]api.CollectionEventConsumer
+}
+
+// the subscription table of the real EtcdOp: one consumer per task, an event is offered until one consumer takes it
+func (m *MetaOp) SubscribeCollectionEvent(taskID string, c api.CollectionEventConsumer) {
+	m.smu.Lock()
+	defer m.smu.Unlock()
+	if m.subs == nil {
+		m.subs = map[string]api.CollectionEventConsumer{}
+	}
+	m.subs[taskID] = c
+}
+
+func (m *MetaOp) UnsubscribeEvent(taskID string, t api.WatchEventType) {
+	m.smu.Lock()
+	if t == api.CollectionEventType {
+		delete(m.subs, taskID)
+	}
+	m.smu.Unlock()
+	if m.W != nil {
+		m.W.Record("unsub", taskID, fmt.Sprint(int(t)), true)
+	}
+}
+
+// Deliver offers a created collection to the subscribers the way the etcd watcher does (in the caller's goroutine)
+func (m *MetaOp) Deliver(c Coll) bool {
+	m.smu.Lock()
+	var ks []string
+	for k := range m.subs {
+		ks = append(ks, k)
+	}
+	sort.Strings(ks)
+	var cs []api.CollectionEventConsumer
+	for _, k := range ks {
+		cs = append(cs, m.subs[k])
+	}
+	m.smu.Unlock()
+	for _, f := range cs {
+		if f != nil && f(m.info(c)) {
+			return true
+		}
+	}
+	return false
 }
 
 func (m *MetaOp) info(c Coll) *pb.CollectionInfo {
